@@ -221,6 +221,7 @@ inductive FieldsRes
   | incomplete
   | bad
   | ok (fs : List Field) (rest : Bytes)
+deriving DecidableEq
 
 /-- field lines up to and including the empty line -/
 def takeFields : Nat → Bytes → FieldsRes
@@ -273,6 +274,7 @@ inductive HeadRes
   | incomplete
   | bad
   | ok (h : Head) (rest : Bytes)
+deriving DecidableEq
 
 /-- fields with side effects outside C03 (cookie parsing, 100-continue) are outside the domain -/
 def fieldsInDomain (fs : List Field) : Bool :=
